@@ -39,6 +39,9 @@ CHECKS = {
  "C12": ("Differential testing against brute-force recomputation from members(): Hypothesis-generated hypergraphs x the full option grid of every matrix function, entrywise comparison through the index maps",
          "Exploration: for each generated hypergraph the whole grid order x sparse x s x weighted x rescale_per_node is evaluated and every matrix entry is compared with its textbook definition computed by the harness; symmetry, zero diagonal, zero row sums, PSD and sparse==dense are checked. One recorded known finding (K1, weighted normalised Laplacian) is reported as KNOWN-FINDING and any other deviation of that function is still a violation.",
          "Floating-point tolerance 1e-9; degenerate shapes as listed in the evidence assumptions.", "DESIGN.md#C12"),
+ "C13": ("Exhaustive enumeration of all simplicial complexes on <= 4 vertices x orientation assignments, plus Hypothesis-generated labelled complexes; algebraic oracle B_k B_{k+1} = 0 and face-incidence of every column",
+         "Small-scope exhaustive search plus random exploration: all 126 complexes on at most four vertices (with/without single-node simplices) under the default and sampled (thorough: all) orientation assignments, and generated complexes with negative, float, string and mixed labels and explicit simplex IDs; integer-exact check of the column structure and of the chain-complex identity, Hodge Laplacians symmetric PSD, kernel of L_0 vs components counted by the harness.",
+         "Exhaustive only for <= 4 vertices; all orientation assignments only in the thorough tier.", "DESIGN.md#C13"),
  "C05": ("Model-based testing: Hypothesis-generated histories applied step by step to xgi and to reference models transcribed from the docstrings (three classes), metamorphic relations for the degree-preserving moves",
          "Exploration by refinement checking against an executable specification: every op of a generated history is applied to the implementation and to the model (parametric in fresh IDs, prefix semantics for bulk calls) and the observable snapshots are compared after every step, including after rejected calls and their exception types.",
          "The models are my transcription of the documentation; inputs the documentation leaves contradictory are excluded by construction and counted (see assumptions in the evidence).", "DESIGN.md#C05"),
